@@ -577,7 +577,7 @@ def planner_flag(pg, uv):
     return not bool(fft > mft)
 
 
-def lens_requests(case, obs, rec, rng, lines, plan):
+def _lens_requests(case, obs, rec, rng, lines, plan):
     """Pipeline tie: the modelled selection + selected pipeline + norm factor on unit impulses (driver op `lens`)."""
     p = case['pupil']
     fo = case['focal']
@@ -618,7 +618,7 @@ def _fspec(f):
 N_COMP = {'scalar': 1, 'scalar-stokes': 4, 'jones': 2, 'matrix': 4}
 
 
-def obj_requests(case, obs, rec, rng, lines, plan, cur_ok):
+def _obj_requests(case, obs, rec, rng, lines, plan, cur_ok):
     """Object tie (driver op `obj`): the executed record functions LensProp.forward/backward on a whole wavefront (every tensor
     component its own scaled impulse, wavelength, Stokes vector), for regular / separated / unstructured / polar focal grids,
     optionally after `prop.focal_length = ...` on the same object (and back)."""
@@ -693,6 +693,40 @@ def obj_requests(case, obs, rec, rng, lines, plan, cur_ok):
         lines.append('C03 setf ' + _fspec(case['f'])); plan.append(('ok', rec))
 
 
+def lens_requests(case, obs, rec, rng, lines, plan):
+    n0, p0 = len(lines), len(plan)
+    try:
+        _lens_requests(case, obs, rec, rng, lines, plan)
+    except MachineryError:
+        raise
+    except Exception as ex:
+        del lines[n0:], plan[p0:]
+        lines.append('C03 alias')
+        plan.append(('obj-fault', rec, '%s: %s' % (type(ex).__name__, ex)))
+
+
+def obj_requests(case, obs, rec, rng, lines, plan, cur_ok):
+    """A fault while observing the implementation (grids, planner inputs) is a broken correspondence, reported by compare_model."""
+    n0, p0 = len(lines), len(plan)
+    try:
+        _obj_requests(case, obs, rec, rng, lines, plan, cur_ok)
+    except MachineryError:
+        raise
+    except Exception as ex:
+        del lines[n0:], plan[p0:]
+        lines.append('C03 alias')
+        plan.append(('obj-fault', rec, '%s: %s' % (type(ex).__name__, ex)))
+
+
+def compare_obj(ctx, case, obs, item, resp):
+    try:
+        _compare_obj(ctx, case, obs, item, resp)
+    except MachineryError:
+        raise
+    except Exception as ex:
+        ctx.disagree('C03 object tie: fault while observing the running code', {'case': case, 'error': '%s: %s' % (type(ex).__name__, ex)})
+
+
 def _nft_precompute():
     try:
         import hcipy
@@ -701,7 +735,7 @@ def _nft_precompute():
         return False
 
 
-def compare_obj(ctx, case, obs, item, resp):
+def _compare_obj(ctx, case, obs, item, resp):
     import hcipy
     _, rec, d, comps, (kx, ky), (mx, my), setter, f_now, flag, regular = item
     p = case['pupil']
@@ -832,6 +866,9 @@ def compare_model(ctx, case, obs, plan, answers):
         if kind == 'ok':
             if resp != 'ok':
                 ctx.disagree('C03 model rejected a session/setter request', {'case': case, 'model': resp})
+            continue
+        if kind == 'obj-fault':
+            ctx.disagree('C03 object tie: fault while observing the running code', {'case': case, 'error': item[2]})
             continue
         ctx.traces_validated += 1
         if kind == 'obj':
@@ -1269,7 +1306,12 @@ def compare_session(ctx, sess, plan, answers):
             continue
         ctx.traces_validated += 1
         if item[0] == 'alias':
-            compare_alias(ctx, sess, item[1], resp)
+            try:
+                compare_alias(ctx, sess, item[1], resp)
+            except MachineryError:
+                raise
+            except Exception as ex:
+                ctx.disagree('C03 object identity: fault while observing the running code', {'session': sess, 'error': '%s: %s' % (type(ex).__name__, ex)})
             continue
         kv = _kv(resp)
         re_, im_ = kv['norm'].split(':')
